@@ -1,7 +1,30 @@
 (* C20 — Encode is total: unsupported or cyclic values give errors, never crashes.
    Statements only; proofs are in C20/Proofs.v.  The model (C20/Model.v) is the encoder's
    traversal with its circular-reference stack; [d] is the stack budget (one unit per nested
-   edge) and [OFuel] means the budget was exhausted (= fatal stack overflow / hang in Go). *)
+   edge) and [OFuel] means the budget was exhausted (= fatal stack overflow / hang in Go).
+
+   WHICH POINTER EDGES ARE RECORDED -- what the model assumes.  [enc] pushes at EVERY edge
+   VPtr a whose target cell is a struct/slice/array/map (cont_kind), whatever holds the pointer
+   (struct field of a simple / omitempty / toarray struct, slice / array / MapBySlice element, map
+   key or value, interface, another pointer) and whatever the Go type of the target; there is one
+   stack for the whole traversal.  The model has no edge that dereferences such a pointer without
+   recording it and no second stack.  The pinned code had both: the builtin shortcut (encodeIB on
+   the dereferenced field / element / map value when the BASE type is in encodeBuiltin's type
+   switch, e.g. *[]interface{}, *map[string]interface{}) and the pooled side encoder used by
+   Canonical for out-of-band map keys (fresh stack, key dereferenced).  Until the harness generated
+   those shapes the model silently assumed them away; they were genuine defects (fatal stack
+   overflow on cyclic values) and are repaired in /repo: F20-3 (encoderBase.builtinField /
+   builtinElem: no shortcut for a pointer that encodeValue records) and F20-4 (ciInherit: the side
+   encoder continues its parent's stack and encodes the key through encodeValue).  After the
+   repair the only pointers still dereferenced by the shortcut are pointers to scalars, which
+   encodeValue does not record either (cont_kind = false in the model).
+   Tie (no translator involved): C20_every_pointer_edge_recorded says that [enc] is the instance
+   of the general traversal [enc_np] with NO unrecorded edge, C20_unrecorded_edge_refuted that a
+   single unrecorded edge on a cycle loses C20_sound; on the implementation side the harness
+   streams ptrcoll / ptrkey (harness/cmd/c20/shapes.go, deterministic) put a pointer to a
+   container in every position in which the encoder dereferences one and require the circular
+   reference error on the cycles through it (fatal stack overflow in a child process = concrete
+   counterexample), and byte-identical output with and without the option on the acyclic ones. *)
 From Coq Require Import List Arith Bool Lia.
 From Verif Require Import Base.Outcome C20.Model C20.Proofs.
 Import ListNotations.
@@ -92,7 +115,32 @@ Theorem C20_typed_identity : forall (d : nat) (h : heap) (o : opts) (ci : list n
 Proof. exact enc_addr_id_lemma. Qed.
 Print Assumptions C20_typed_identity.
 
+(* [enc] records every pointer edge to a container: it is the traversal [enc_np] (Model.v) in which
+   no pointer is dereferenced unrecorded *)
+Theorem C20_every_pointer_edge_recorded : forall (d : nat) (h : heap) (o : opts) (ci : list nat) (v : val),
+  enc_np (fun _ => false) d h o ci v = enc d h o ci v.
+Proof. exact enc_np_false_lemma. Qed.
+Print Assumptions C20_every_pointer_edge_recorded.
+
+(* what findings F20-3 / F20-4 were, on the model: with pointer edges that are dereferenced without
+   being recorded the hypotheses of C20_sound do not give its conclusion -- a cycle whose only
+   pointer is such an edge exhausts every budget *)
+Theorem C20_unrecorded_edge_refuted : exists (np : nat -> bool) (h : heap) (v : val) (R : nat),
+  nopush_wf h v R /\ cyclic_ptr h v /\ forall d, enc_np np d h (mkopts true false) [] v = OFuel.
+Proof. exact np_refuted_lemma. Qed.
+Print Assumptions C20_unrecorded_edge_refuted.
+
 (* ---- non-vacuity ---- *)
+
+(* s := []interface{}{nil}; s[0] = T{F: &s}; Encode(&s): cell 0 is the slice variable, cell 1 its
+   elements; the only pointer of the cycle is the field F.  Recorded (the repaired code): circular
+   reference error; dereferenced by the shortcut (the pinned code): the budget is exhausted. *)
+Example C20_ptr_to_builtin_collection_nonvacuous :
+  let h := [VSlice 1; VArr [VIface (VStruct [VPtr 0])]] in
+  enc 50 h (mkopts true false) [] (VPtr 0) = OErr ECircular [0] /\
+  enc_np (fun _ => false) 50 h (mkopts true false) [] (VPtr 0) = OErr ECircular [0] /\
+  enc_np (fun a => Nat.eqb a 0) 50 h (mkopts true false) [] (VPtr 0) = OFuel.
+Proof. vm_compute. repeat split. Qed.
 
 (* interior pointers: cell 0 is a *Book, cell 1 the *Header that points at the Book's embedded first
    field (the same address, another type).  The graph is acyclic and is accepted; a checker that
